@@ -389,7 +389,8 @@ def run_check(prop, tier="quick", seed=0, replay=None):
     for key in sorted({v.key for v in old}):
         print("KNOWN-FINDING: property=%s %s [%s]" % (prop, known[key], key))
     if new:
-        new.sort(key=lambda v: len(json.dumps(v.case)))
+        # shortest first; a failing input that does not reproduce on its own (a check says so in the detail) goes last
+        new.sort(key=lambda v: ("not from this case alone" in str(v.detail), len(json.dumps(v.case))))
         path = write_replay(prop, {"property": prop, "seed": seed, "tier": tier,
                                    "violations": [v.to_json() for v in new[:20]],
                                    "broken": broken})
